@@ -357,3 +357,8 @@ def run_sharded(items, worker, nshards=None):
         for j, r in enumerate(res[i]):
             out[i + j * n] = r
     return out
+
+
+VK_WRAPS = ["clock_gettime", "gettimeofday", "epoll_create", "epoll_create1", "eventfd", "syscall", "pipe",
+            "timerfd_create", "timerfd_settime", "epoll_ctl", "epoll_wait", "epoll_pwait2", "poll", "ppoll",
+            "read", "write", "close", "fcntl", "setsockopt"]
